@@ -1,6 +1,6 @@
 (* Executable entry points of the C16 model and of its specification oracles. *)
 From Verif Require Import Lib.Bytes Json.Ast Net.IpC16 Net.ServerNameC16 Net.WellKnown
-     Net.Resolve Net.PolicySpec Net.WellKnownSpec Net.ResolveSpec.
+     Net.Resolve Net.PolicySpec Net.WellKnownSpec Net.ResolveSpec Net.RoundTrip.
 Open Scope N_scope.
 
 Definition n_of (s : bytes) : N := match parse_dec s with Some n => n | None => 0 end.
@@ -211,6 +211,104 @@ Definition prop_resolve (args : list bytes) : bytes :=
   let want := run_resolve_with true true a in
   if bytes_eqb want obs then bs "ok" else bs "FAIL want=" ++ firstn 300 want.
 
+(* ---- round trips with failing first attempts ----
+   [name; wksrv; k; nrt; dead ports (comma separated); wkmode; status; cl; cc; ex; bm; body; now; srv table...]
+   nrt round trips for the same server name through one transport (one resolution cache); the
+   listeners fail the first k TLS handshakes they see; ports in the dead list refuse.
+   Output per round trip: the lookups made, one line per attempt the listeners saw
+   (A port sni [host]) and RT ok / RT err.  The SNI extension is not sent for IP literals. *)
+Definition wire_sni (s : bytes) : bytes := match parse_ip s with Some _ => [] | None => s end.
+
+Definition show_attempt (a : target * attempt_outcome) : list bytes :=
+  let '(t, o) := a in
+  let base := bs "A port=" ++ port_of (t_dest t) ++ bs " sni=" ++ wire_sni (t_sni t) in
+  match o with
+  | ARefused => []
+  | ATlsFail => [base]
+  | AOk => [base ++ bs " host=" ++ t_host t]
+  end.
+
+Fixpoint run_rts (n : nat) (wks : bool) (dead : list bytes) (name : bytes)
+         (wk : bytes -> option bytes) (srv : bytes -> bytes -> srv_outcome)
+         (cache : option (list target)) (k : N) : list bytes :=
+  match n with
+  | O => []
+  | S n' =>
+      let cache_hit := match cache with Some (_ :: _) => true | _ => false end in
+      let looked := wks && negb cache_hit in
+      let ps := if looked then map show_probe (probes wk srv name) else [] in
+      match round_trip wks dead name (resolve wk srv name) cache k with
+      | None => ps ++ [bs "RT err"] ++ run_rts n' wks dead name wk srv cache k
+      | Some r =>
+          ps ++ flat_map show_attempt (rt_attempts r)
+             ++ [if rt_ok r then bs "RT ok" else bs "RT err"]
+             ++ run_rts n' wks dead name wk srv (rt_cache r) (rt_k r)
+      end
+  end.
+
+Definition rt_env (spec_side : bool) (wkmode status cl cc ex bm body now : bytes) (tbl : list bytes)
+  : (bytes -> option bytes) * (bytes -> bytes -> srv_outcome) :=
+  let rep := reply_of status cl cc ex bm body in
+  (fun _ : bytes =>
+     if bytes_eqb wkmode (bs "reply") then
+       if spec_side then option_map fst (honouredb (z_of now) rep)
+       else match lookup (z_of now) rep with WkOk a _ => Some a | WkErr => None end
+     else None,
+   srv_lookup (srv_table (length tbl) tbl)).
+
+Definition run_round_trip (args : list bytes) : bytes :=
+  match args with
+  | name :: wksrv :: k :: nrt :: dead :: wkmode :: status :: cl :: cc :: ex :: bm :: body :: now :: tbl =>
+      let '(wk, srv) := rt_env false wkmode status cl cc ex bm body now tbl in
+      join_bytes nl (run_rts (N.to_nat (n_of nrt)) (bytes_eqb wksrv (bs "1")) (split_all 44 dead [])
+                             name wk srv None (n_of k))
+  | _ => bs "badargs"
+  end.
+
+(* specification oracle: every attempt the listeners saw, in whichever round trip and pass,
+   must carry the port, SNI and Host of a target that the specification's table gives for the
+   ORIGINAL server name; a round trip may report success only after an attempt that got through *)
+Definition spec_targets (wks : bool) (name : bytes) (wk : bytes -> option bytes)
+           (srv : bytes -> bytes -> srv_outcome) : list target :=
+  if wks then match spec_fn wk srv name with Targets l => l | _ => [] end
+  else [ {| t_dest := name; t_host := name; t_sni := name |} ].
+
+Definition attempt_allowed (allowed : list target) (line : bytes) : bool :=
+  match split_all 32 line [] with
+  | [_; p; s] =>
+      existsb (fun t => bytes_eqb p (bs "port=" ++ port_of (t_dest t))
+                        && bytes_eqb s (bs "sni=" ++ wire_sni (t_sni t))) allowed
+  | [_; p; s; h] =>
+      existsb (fun t => bytes_eqb p (bs "port=" ++ port_of (t_dest t))
+                        && bytes_eqb s (bs "sni=" ++ wire_sni (t_sni t))
+                        && bytes_eqb h (bs "host=" ++ t_host t)) allowed
+  | _ => false
+  end.
+
+Fixpoint check_lines (allowed : list target) (lines : list bytes) (got_through : bool) : bytes :=
+  match lines with
+  | [] => bs "ok"
+  | l :: r =>
+      if is_prefix (bs "A ") l then
+        if attempt_allowed allowed l
+        then check_lines allowed r (got_through || (4 <=? N.of_nat (length (split_all 32 l []))))
+        else bs "FAIL attempt not prescribed for the server name: " ++ l
+      else if bytes_eqb l (bs "RT ok") then
+        if got_through then check_lines allowed r false else bs "FAIL success without a completed attempt"
+      else if bytes_eqb l (bs "RT err") then check_lines allowed r false
+      else check_lines allowed r got_through
+  end.
+
+Definition prop_round_trip (args : list bytes) : bytes :=
+  match args with
+  | name :: wksrv :: k :: nrt :: dead :: wkmode :: status :: cl :: cc :: ex :: bm :: body :: now :: rest =>
+      let tbl := removelast rest in
+      let obs := last rest [] in
+      let '(wk, srv) := rt_env true wkmode status cl cc ex bm body now tbl in
+      check_lines (spec_targets (bytes_eqb wksrv (bs "1")) name wk srv) (split_all 10 obs []) false
+  | _ => bs "badargs"
+  end.
+
 (* end-to-end dial: [mode; target; network; address handed to the dialer; nallow; allow...; deny...];
    whatever the path (DNS cache, client with or without cache, literal, name, retry), the
    connection may be made iff the control decision for the address dialled allows it *)
@@ -236,6 +334,8 @@ Definition ops_C16 : list (bytes * (list bytes -> bytes)) :=
     (bs "C16.resolve", run_resolve);
     (bs "C16.prop.resolve", prop_resolve);
     (bs "C16.control_unrepaired", run_control_unrepaired);
+    (bs "C16.round_trip", run_round_trip);
+    (bs "C16.prop.round_trip", prop_round_trip);
     (bs "C16.dial", run_dial);
     (bs "C16.prop.dial", prop_dial);
     (bs "C16.dial_unrepaired", run_dial_unrepaired);
